@@ -20,6 +20,7 @@
 #include <setjmp.h>
 #include <sys/resource.h>
 #include <sys/stat.h>
+#include <sys/time.h>
 #include <ucontext.h>
 
 using namespace vf;
@@ -285,6 +286,7 @@ static std::string pathShape(const Graph &g, const std::vector<Node> &path)
 struct Res
 {
     bool fail = false, impCycle = false, concCycle = false, either = false;
+    bool belowImport = false; // the search went from an import component to a component it encapsulates
     int cycleLen = 0;
     std::string why;  // first reason
     std::string path; // shape of the dependency path on which it was met (C/U = component/units, i/c = import/concrete, k = via an encapsulated child)
@@ -358,7 +360,10 @@ struct Ref
         std::vector<std::string> miss;
         deps(n, d, miss, needed, &r);
         for (auto &m : miss) { r.fail = true; r.note(m, pathShape(g, path) + ">?"); }
-        for (auto &t : d) dfs(t, path, r, needed, visited);
+        for (auto &t : d) {
+            if (t.child && entOf(g, n).imp) r.belowImport = true;
+            dfs(t, path, r, needed, visited);
+        }
         path.pop_back();
     }
     Res eval(Node n, std::set<int> *needed = nullptr, std::set<Node> *visited = nullptr) const
@@ -410,6 +415,7 @@ struct Verdict
     std::string why, whyPath;      // reason for EX_FALSE and the shape of the path on which it sits
     bool crashProne = false;       // an ordinary-units cycle is reachable from a root entity
     bool impCycleReachable = false; // an import cycle is reachable from a root entity
+    bool belowImport = false;       // some reachable component is encapsulated by an import component
     bool rootHasImports = false;
     std::set<int> needed;          // files that must be loaded
     std::vector<Node> failingRoot; // root imports that cannot be satisfied
@@ -426,6 +432,7 @@ static Verdict judge(const Graph &g, bool permissive)
         Res r = ref.eval(n, e.imp ? &v.needed : nullptr);
         if (r.concCycle) v.crashProne = true;
         if (r.impCycle) v.impCycleReachable = true;
+        if (r.belowImport) v.belowImport = true;
         if (!e.imp) continue;
         v.rootHasImports = true;
         if (r.fail || r.impCycle) { v.failingRoot.push_back(n); if (v.why.empty()) { v.why = r.why; v.whyPath = r.path; } }
@@ -759,7 +766,9 @@ static ModelPtr modelOfEntity(const ParentedEntityPtr &e)
 // Where the library stopped looking, read off the shape of the dependency path to the problem it did not see.
 static std::string blindSpot(const std::string &path)
 {
-    if (path.find("Cck>") != std::string::npos || path.find("/Cc>U") != std::string::npos || path.find("/Cck>U") != std::string::npos) return "units-used-by-an-encapsulated-child-of-an-imported-component";
+    if (path.find("Cck>") != std::string::npos || path.find("/Cc>") != std::string::npos) return "units-used-by-an-encapsulated-child-of-an-imported-component";
+    // inside an imported model nothing looks at the components an IMPORT component encapsulates (nor does isResolved() in the root model)
+    if (path.find("Ci/") != std::string::npos) return "components-encapsulated-by-an-import-component";
     // fetchUnits does not look into concrete units reached from a concrete component, nor into the concrete children of concrete units
     if (path.find("Cc>Uc>") != std::string::npos || path.find("Uc>Uc") != std::string::npos) return "units-referenced-by-concrete-units-that-are-themselves-reached-through-a-concrete-entity";
     return "";
@@ -774,7 +783,7 @@ static void report(Ctx &c, const std::string &sig, json detail = json::object())
     else { ++c.violations; c.count("repeats_not_printed"); c.count("n:" + sig); }
 }
 
-static const int HANG_SECONDS = 2; // CPU time; an ordinary call takes well under 10 ms
+static const int HANG_SECONDS = 1; // CPU time; an ordinary call takes well under 10 ms
 
 struct Session
 {
@@ -955,7 +964,7 @@ struct Session
             std::vector<Node> d;
             std::vector<std::string> miss;
             ref.deps(n, d, miss, nullptr, nullptr);
-            for (auto &t : d) if (walk(t, path, next)) return true;
+            for (auto &t : d) if (walk(t, path, (t.child || !e.imp) ? m : next)) return true;
             path.pop_back();
             inst.pop_back();
             return false;
@@ -1046,7 +1055,7 @@ struct Session
         c.outcome(ph + "flatten:" + (flat ? "model" : "null") + (resolved == 1 ? ":after-success" : resolved == 0 ? ":unresolved" : ":unknown"));
         if (v.fileCycleOnly) resolved = -1; // excluded by the statement: termination and issue coherence only
         if (resolved == 0) {
-            if (flat) report(c, sig(ph + "flatten:returns-a-model-although-unresolved"), detail);
+            if (flat) report(c, sig(ph + "flatten:returns-a-model-although-unresolved") + ":" + inputClass, detail);
             else if (imp->issueCount() == 0) report(c, sig(ph + "flatten:null-without-any-issue"), detail);
         } else if (resolved == 1 && v.expect == EX_TRUE && !v.crashProne) {
             if (!flat) report(c, sig(ph + "flatten:null-after-successful-resolve"), {{"issues", issuesJson(imp)}, {"case", detail}});
@@ -1156,6 +1165,13 @@ static std::vector<std::optional<std::string>> textsOf(const Graph &g)
     return t;
 }
 
+static std::string inputClassOf(const Verdict &v)
+{
+    std::string s = v.crashProne ? "ordinary-units-cycle-reachable" : v.impCycleReachable ? "import-cycle-reachable" : v.fileCycle ? "files-import-from-each-other" : "acyclic-input";
+    if (v.belowImport) s += "+components-encapsulated-by-import-components";
+    return s;
+}
+
 // One fault-free or faulted scenario, one delivery mode: [flatten] resolve [hasUnresolved] flatten
 static void scenario(Ctx &c, const Graph &g, Mode mode, const std::string &situation, bool flattenFirst, bool forceFork = false)
 {
@@ -1167,7 +1183,7 @@ static void scenario(Ctx &c, const Graph &g, Mode mode, const std::string &situa
         Session s(cc, mode, guarded, situation);
         s.detail = detail;
         s.progress = progress;
-        s.inputClass = v.crashProne ? "ordinary-units-cycle-reachable" : v.impCycleReachable ? "import-cycle-reachable" : v.fileCycle ? "files-import-from-each-other" : "acyclic-input";
+        s.inputClass = inputClassOf(v);
         if (!mode.strict && situation.find("cellml-1.1") != std::string::npos) s.inputClass += "+1.1-file-read-by-permissive-importer";
         if (mode.disk) writeFiles(texts);
         if (!s.parseRoot(render(g, 0))) return;
@@ -1318,7 +1334,7 @@ static void repairSequence(Ctx &c, const Graph &g0, const Verdict &v0, const Fau
         Session s(cc, mode, guarded, situation);
         s.detail = detail;
         s.progress = progress;
-        s.inputClass = vf.impCycleReachable ? "import-cycle-reachable" : "acyclic-input";
+        s.inputClass = inputClassOf(vf);
         if (mode.disk) writeFiles(textsF);
         if (!s.parseRoot(render(g0, 0))) return;
         s.newImporter();
@@ -1369,7 +1385,7 @@ static void repairSequence(Ctx &c, const Graph &g0, const Verdict &v0, const Fau
             }
         }
         old.clear();
-        if (judged) s.inputClass = v0.crashProne ? "ordinary-units-cycle-reachable" : v0.impCycleReachable ? "import-cycle-reachable" : v0.fileCycle ? "files-import-from-each-other" : "acyclic-input"; // what a fresh resolution sees from here on (an uncleared library still holds the faulted models)
+        if (judged) s.inputClass = inputClassOf(v0); // what a fresh resolution sees from here on (an uncleared library still holds the faulted models)
         if (freshRoot && !s.parseRoot(render(g0, 0))) return;
         int r2 = s.resolve(g0, v0, texts0, "repaired", judged);
         stillAlive.clear();
